@@ -43,7 +43,9 @@ class C16(Prop):
     ]
     rule = ("generated ordinal / categorical contents: 0-4 repeated ballot lines, header counts drawn independently "
             "of the body, names from a pool built to collide (A, A, A__1, A__2, A__1__1, ...), category names "
-            "likewise; plus clean contents parsed with both flag values; non-trivial = a repeated ballot or name")
+            "likewise; plus clean contents parsed with both flag values; the same content also through parse_file and "
+            "get_parsed_instance with autocorrect=True, and parsed twice into one object (counts must be those of the "
+            "ballots it holds); non-trivial = a repeated ballot or name")
     budget = {"quick": 400, "thorough": 40000}
     anchors = [("preflibtools.instances.preflibinstance.ordinal", "OrdinalInstance.parse"),
                ("preflibtools.instances.preflibinstance.categorical", "CategoricalInstance.parse"),
